@@ -57,6 +57,12 @@ Theorem C14_filtered_decodes : forall c want, wf_carrier c -> pre c = [] ->
 Proof. exact filtered_decodes. Qed.
 Print Assumptions C14_filtered_decodes.
 
+(* requesting (at least) every PID of the PMT reproduces the section, with the CRC field recomputed over it *)
+Theorem C14_filter_all_keeps_everything : forall s want, (forall e, In e (sstreams s) -> In (epid e) want) ->
+  ser_sec_nocrc (filtered_sec s want) = ser_sec_nocrc s /\ crc (filtered_sec s want) = crc_model (ser_sec_nocrc s).
+Proof. exact filtered_sec_all. Qed.
+Print Assumptions C14_filter_all_keeps_everything.
+
 (* the error contract, read off missing_of *)
 Theorem C14_filter_errors_no_error_iff : forall have pmt_pid want,
   missing_of have pmt_pid want = [] <-> (forall x, In x want -> In x have \/ x = 0 \/ x = pmt_pid).
